@@ -106,13 +106,13 @@ class DBusClientConnection (txdbus.protocol.BasicDBusProtocol):
         for cb in list(self._dcCallbacks):
             cb(self, reason)
 
+        self.objHandler.connectionLost(reason)
+
         for d, timeout in self._pendingCalls.values():
             if timeout:
                 timeout.cancel()
             d.errback(reason)
         self._pendingCalls = {}
-
-        self.objHandler.connectionLost(reason)
 
     def notifyOnDisconnect(self, callback):
         """
